@@ -92,11 +92,11 @@ fn sat_lock_masks(t: &T) -> Vec<u8> {
     }
 }
 
-fn mixed_timelocks(t: &T) -> bool { sat_lock_masks(t).iter().any(|m| (m & 3) == 3 || (m & 12) == 12) }
+pub fn mixed_timelocks(t: &T) -> bool { sat_lock_masks(t).iter().any(|m| (m & 3) == 3 || (m & 12) == 12) }
 
 /// The library's documented (syntactic, conservative) notion: a conjunction (and / thresh k>1)
 /// whose children carry conflicting lock kinds anywhere below them.
-fn mixed_timelocks_syntactic(t: &T) -> bool {
+pub fn mixed_timelocks_syntactic(t: &T) -> bool {
     fn kinds(t: &T) -> u8 {
         let mut m = 0;
         for n in t.nodes() {
@@ -115,6 +115,42 @@ fn mixed_timelocks_syntactic(t: &T) -> bool {
         T::Thresh(k, v) if *k > 1 => (0..v.len()).any(|i| (i + 1..v.len()).any(|j| conflict(kinds(&v[i]), kinds(&v[j])))),
         _ => false,
     })
+}
+
+/// Node-level reference of the documented time-lock bookkeeping: (csv height, csv time, cltv
+/// height, cltv time, combination). Disjunctions take the union of their children; conjunctions
+/// (and_v, and_b, the X-and-Y half of andor, thresh with k > 1) additionally flag a combination when
+/// one child carries a height lock and another a time lock of the same kind.
+pub fn tl_info(t: &T) -> [bool; 5] {
+    fn comb(k: usize, cs: &[[bool; 5]]) -> [bool; 5] {
+        let mut acc = [false; 5];
+        for c in cs {
+            if k > 1 {
+                let clash = (acc[0] && c[1]) || (acc[1] && c[0]) || (acc[3] && c[2]) || (acc[2] && c[3]);
+                acc[4] |= clash;
+            }
+            for i in 0..5 {
+                acc[i] |= c[i];
+            }
+        }
+        acc
+    }
+    match t {
+        T::Older(v) => {
+            let time = v & (1 << 22) != 0;
+            [!time, time, false, false, false]
+        }
+        T::After(v) => {
+            let time = *v >= 500_000_000;
+            [false, false, !time, time, false]
+        }
+        T::Alt(x) | T::Swap(x) | T::Check(x) | T::DupIf(x) | T::Verify(x) | T::NonZero(x) | T::ZeroNotEqual(x) => tl_info(x),
+        T::AndV(a, b) | T::AndB(a, b) => comb(2, &[tl_info(a), tl_info(b)]),
+        T::OrB(a, b) | T::OrC(a, b) | T::OrD(a, b) | T::OrI(a, b) => comb(1, &[tl_info(a), tl_info(b)]),
+        T::AndOr(a, b, c) => comb(1, &[comb(2, &[tl_info(a), tl_info(b)]), tl_info(c)]),
+        T::Thresh(k, v) => comb(*k, &v.iter().map(tl_info).collect::<Vec<_>>()),
+        _ => [false; 5],
+    }
 }
 
 #[derive(Clone, Copy, Debug, PartialEq, Eq)]
@@ -197,20 +233,10 @@ fn defects(t: &T, tap: bool, form: KeyForm) -> Defects {
     Defects { v: SWITCHES.iter().map(|s| (*s, d(*s))).collect() }
 }
 
-fn switch_checks<Ctx: Cx>(rep: &Report, ctx: &'static str, n: usize, n_all_combos: usize, tap: bool, forms: &[KeyForm], alpha: Alphabet) -> (Census, u64, u64) {
-    let te = explore::<Ctx>(n, alpha, tap);
-    let mut all: Vec<T> = vec![];
-    for m in te.all() {
-        let t = walk(m).relabel_distinct();
-        for p in key_partitions(&t, 3) {
-            all.push(p);
-        }
-        all.push(t);
-    }
-    // lock interplay: every ordered pair of lock leaves (both kinds, both units) in conjunction,
-    // followed by satisfiable and statically unsatisfiable tails, and in disjunction; each also one
-    // context level up
-    {
+/// Lock interplay family: every ordered pair of lock leaves (both kinds, both units) in
+/// conjunction / disjunction, with satisfiable and statically unsatisfiable tails, wrapped locks in
+/// every child position of every container, each also one context level up.
+pub fn lock_family<Ctx: Cx>() -> Vec<T> {
         let b = |t: T| Box::new(t);
         let locks = [T::After(10), T::After(500_000_010), T::Older(5), T::Older(4_194_309)];
         let pk = || T::Check(b(T::PkK("K1".into())));
@@ -232,12 +258,48 @@ fn switch_checks<Ctx: Cx>(rep: &Report, ctx: &'static str, n: usize, n_all_combo
                 }
             }
         }
+        // wrapped locks (l:n:L is B d u, a: makes it W) in every child position of every container
+        for l1 in &locks {
+            for l2 in &locks {
+                let w1 = T::OrI(b(T::False), b(T::ZeroNotEqual(b(l1.clone()))));
+                let w2 = T::OrI(b(T::False), b(T::ZeroNotEqual(b(l2.clone()))));
+                let aw2 = T::Alt(b(w2.clone()));
+                let spk = T::Swap(b(pk()));
+                fam.push(T::AndOr(b(w1.clone()), b(pk()), b(l2.clone())));
+                fam.push(T::AndOr(b(w1.clone()), b(l2.clone()), b(pk())));
+                fam.push(T::AndOr(b(pk()), b(l1.clone()), b(l2.clone())));
+                fam.push(T::AndOr(b(w1.clone()), b(l2.clone()), b(l2.clone())));
+                fam.push(T::OrB(b(w1.clone()), b(aw2.clone())));
+                fam.push(T::AndB(b(w1.clone()), b(aw2.clone())));
+                fam.push(T::OrD(b(w1.clone()), b(l2.clone())));
+                fam.push(T::AndV(b(T::Verify(b(T::OrB(b(pk()), b(aw2.clone()))))), b(l1.clone())));
+                fam.push(T::AndV(b(T::Verify(b(T::OrB(b(w1.clone()), b(spk.clone()))))), b(l2.clone())));
+                fam.push(T::AndV(b(T::Verify(b(T::OrD(b(pk()), b(l1.clone()))))), b(l2.clone())));
+                fam.push(T::AndV(b(T::OrC(b(pk()), b(T::Verify(b(l1.clone()))))), b(l2.clone())));
+                for k in 1..=3 {
+                    fam.push(T::Thresh(k, vec![w1.clone(), aw2.clone(), spk.clone()]));
+                    fam.push(T::Thresh(k, vec![pk(), T::Alt(b(w1.clone())), aw2.clone()]));
+                }
+            }
+        }
         let lifted: Vec<T> = fam.iter().flat_map(|f| crate::sat::contexts1::<Ctx>(f)).collect();
         fam.extend(lifted);
         fam.sort();
         fam.dedup();
-        all.extend(fam);
+        fam
+}
+
+fn switch_checks<Ctx: Cx>(rep: &Report, ctx: &'static str, n: usize, n_all_combos: usize, tap: bool, forms: &[KeyForm], alpha: Alphabet) -> (Census, u64, u64) {
+    let te = explore::<Ctx>(n, alpha, tap);
+    let mut all: Vec<T> = vec![];
+    for m in te.all() {
+        let t = walk(m).relabel_distinct();
+        for p in key_partitions(&t, 3) {
+            all.push(p);
+        }
+        all.push(t);
     }
+    all.extend(lock_family::<Ctx>());
     // raw pkh terms
     let h = "a6a0c6a6b20b0661260eab7117303f3bbe925fd9".to_string();
     all.push(T::Check(Box::new(T::RawPkH(h.clone()))));
@@ -287,6 +349,16 @@ fn switch_checks<Ctx: Cx>(rep: &Report, ctx: &'static str, n: usize, n_all_combo
                             }
                         }
                         Err(p) => viol(&format!("validate-panic@{}", panic_site(&p)), p),
+                    }
+                }
+                // node-level time-lock bookkeeping (ExtData::timelock_info) against the reference
+                {
+                    bump(&mut cen, "timelock_info_checks");
+                    let li = ms.ext.timelock_info;
+                    let got = [li.csv_with_height, li.csv_with_time, li.cltv_with_height, li.cltv_with_time, li.contains_combination];
+                    let exp = tl_info(t);
+                    if got != exp {
+                        viol("timelock_info", format!("ExtData::timelock_info (csv h/t, cltv h/t, combination) = {:?}, reference {:?}", got, exp));
                     }
                 }
                 // each switch agrees with the library's own public predicate for that defect
